@@ -1966,6 +1966,9 @@ class ProgGen:
             f = self.block(d - 1, ctx, 0, 2) if (h is None or rnd.random() < 0.4) else None
             return Try(blk, "e" if h is not None else None, h, f)
         if r < 0.96:
+            if rnd.random() < 0.5:
+                # bare sibling blocks inside one block: { {..} {..} {} }
+                return Block([self.block(d - 1, ctx, 0, 2) for _ in range(rnd.choice((2, 3)))])
             return self.block(d - 1, ctx)
         lab = self.newlabel()
         lc = dict(ctx, labels=ctx["labels"] + [(lab, False)])
